@@ -193,7 +193,7 @@ def main(argv=None):
         descs = prop.plan(tier, seed)
         jobs = [{"tier": tier, "seed": seed, "shard": i, "desc": d} for i, d in enumerate(descs)]
 
-    timeout = getattr(prop, "SHARD_TIMEOUT", {}).get(tier, 900 if tier == "quick" else 7200)
+    timeout = getattr(prop, "SHARD_TIMEOUT", {}).get(tier, 240 if tier == "quick" else 3600)
     njobs = args.jobs or min(16, max(1, len(jobs)), os.cpu_count() or 1)
     with concurrent.futures.ThreadPoolExecutor(njobs) as ex:
         results = list(ex.map(lambda j: run_shard(pid, j, timeout), jobs))
